@@ -314,6 +314,22 @@ func genC14(g *G) {
 		}
 		emit(w, start, target, "cap")
 	}
+	{
+		// a valid target that uses the same 6 000 streams under two aggregators (6 000 unique stream ids,
+		// 12 000 (stream, aggregator) pairs): within every limit, must converge like any other
+		w := newWorld(g)
+		w.hasPred = false
+		many := func(agg int) J {
+			st := make([]any, 6000)
+			for i := range st {
+				st[i] = J{"sid": S(i), "agg": S(agg)}
+			}
+			return J{"format": "2", "streams": st, "opts": ""}
+		}
+		start := map[int]J{1: w.smallDef(1, 1), 5: w.smallDef(3, 1)}
+		target := map[int]J{1: many(1), 2: many(2), 3: w.smallDef(7000, 2)}
+		emit(w, start, target, "shared-streams-two-aggregators")
+	}
 	for _, below := range []int{0, 3} {
 		// rotation at (or just below) the cap: every pending update is a brand-new id, so the additions of a
 		// round need the slots freed by the removals of the same round (removals are applied first)
